@@ -141,6 +141,11 @@ theorem C09_removeZero_mat {α : Type} (φ : α → ℂ) (isZ : α → Bool) (hz
     (op : PauliOp α) : PauliOp.mat φ n (op.removeZero isZ) = PauliOp.mat φ n op :=
   PauliOp.removeZero_matG (PS.mat n) φ isZ hz op
 
+/-- the closed form `removeZero` used above is the loop of `remove_zero_weight_strings`
+(`for i in range(len-1, -1, -1): if zero(i) and len > 1: pop(i)`) -/
+theorem C09_removeZero_is_loop {α : Type} (isZ : α → Bool) (op : PauliOp α) :
+    PauliOp.removeZeroLoop isZ op = PauliOp.removeZero isZ op := PauliOp.removeZeroLoop_eq isZ op
+
 /-- any history of insertions and zero-weight removals: final matrix = initial matrix + Σ inserted terms -/
 theorem C09_history_mat {α : Type} [Add α] (φ : α → ℂ) (hadd : ∀ a b, φ (a + b) = φ a + φ b) (n : ℕ)
     (h : List (PauliOp.Step α)) (hz : ∀ isZ, PauliOp.Step.prune isZ ∈ h → ∀ w, isZ w = true → φ w = 0)
